@@ -1228,9 +1228,19 @@ impl VM {
         }
     }
 
+    fn int_overflow(op: &str, left: i64, right: i64, pos: &Position) -> Error {
+        Error::new(
+            format!("Integer overflow evaluating {} {} {}", left, op, right).into(),
+            pos.clone(),
+        )
+    }
+
     fn mul(&self, left: &Value, right: &Value, pos: &Position) -> Result<Primitive, Error> {
         Ok(match (left, right) {
-            (P(Int(i)), P(Int(ii))) => Int(i * ii),
+            (P(Int(i)), P(Int(ii))) => match i.checked_mul(*ii) {
+                Some(n) => Int(n),
+                None => return Err(Self::int_overflow("*", *i, *ii, pos)),
+            },
             (P(Float(f)), P(Float(ff))) => Float(f * ff),
             _ => {
                 return Err(Error::new(
@@ -1243,7 +1253,13 @@ impl VM {
 
     fn div(&self, left: &Value, right: &Value, pos: &Position) -> Result<Primitive, Error> {
         Ok(match (left, right) {
-            (P(Int(i)), P(Int(ii))) => Int(i / ii),
+            (P(Int(_)), P(Int(0))) => {
+                return Err(Error::new("Division by zero".to_string().into(), pos.clone()))
+            }
+            (P(Int(i)), P(Int(ii))) => match i.checked_div(*ii) {
+                Some(n) => Int(n),
+                None => return Err(Self::int_overflow("/", *i, *ii, pos)),
+            },
             (P(Float(f)), P(Float(ff))) => Float(f / ff),
             _ => {
                 return Err(Error::new(
@@ -1256,7 +1272,10 @@ impl VM {
 
     fn sub(&self, left: &Value, right: &Value, pos: &Position) -> Result<Primitive, Error> {
         Ok(match (left, right) {
-            (P(Int(i)), Value::P(Int(ii))) => Int(i - ii),
+            (P(Int(i)), Value::P(Int(ii))) => match i.checked_sub(*ii) {
+                Some(n) => Int(n),
+                None => return Err(Self::int_overflow("-", *i, *ii, pos)),
+            },
             (P(Float(f)), Value::P(Float(ff))) => Float(f - ff),
             _ => {
                 return Err(Error::new(
@@ -1269,7 +1288,13 @@ impl VM {
 
     fn modulus(&self, left: &Value, right: &Value, pos: &Position) -> Result<Primitive, Error> {
         Ok(match (left, right) {
-            (P(Int(i)), Value::P(Int(ii))) => Int(i % ii),
+            (P(Int(_)), Value::P(Int(0))) => {
+                return Err(Error::new("Modulus by zero".to_string().into(), pos.clone()))
+            }
+            (P(Int(i)), Value::P(Int(ii))) => match i.checked_rem(*ii) {
+                Some(n) => Int(n),
+                None => return Err(Self::int_overflow("%%", *i, *ii, pos)),
+            },
             (P(Float(f)), Value::P(Float(ff))) => Float(f % ff),
             _ => {
                 return Err(Error::new(
@@ -1282,7 +1307,10 @@ impl VM {
 
     fn add(&self, left: &Value, right: &Value, pos: &Position) -> Result<Value, Error> {
         Ok(match (left, right) {
-            (P(Int(i)), Value::P(Int(ii))) => P(Int(i + ii)),
+            (P(Int(i)), Value::P(Int(ii))) => match i.checked_add(*ii) {
+                Some(n) => P(Int(n)),
+                None => return Err(Self::int_overflow("+", *i, *ii, pos)),
+            },
             (P(Float(f)), Value::P(Float(ff))) => P(Float(f + ff)),
             (P(Str(s)), Value::P(Str(ss))) => {
                 let mut ns = String::new();
